@@ -326,6 +326,10 @@ def unit_parsers(ctx, days):
         pre = common.driver([lines[i].replace(op, pre_op, 1) for i in sub])
         for i, pf in zip(sub, pre):
             if impl[i] == pf:
+                g = impl[i].split('\t')
+                if op == 'du.mtd\t' and g[1].split('@')[0] == g[2].split('@')[0]:
+                    diff.remove(i)          # January: day number = month number = 1, the printed dates still agree
+                    continue
                 f = lines[i].split('\t')
                 R = dt.datetime(int(f[1]), int(f[2]), int(f[3])) + dt.timedelta(seconds=int(f[4]))
                 want = oracle('weekend', int(f[5]), R) if op == 'du.weekend\t' else oracle('mtd', None, R)
